@@ -78,6 +78,14 @@ def main():
     if not okp:
         ctx.proof_ok = False
         ctx.broken.append({"kind": "theorem", "module": "GrVerif.Props." + prop, "error": first_error(logp)})
+    # further modules of property theorems (named by the property's check; audited through the same Audit/Axioms file)
+    for extra in getattr(mod, "EXTRA_PROPS", []):
+        oke, loge, dte = lib.lake_build([extra])
+        dt2 += dte
+        if not oke:
+            okp = False
+            ctx.proof_ok = False
+            ctx.broken.append({"kind": "theorem", "module": extra, "error": first_error(loge)})
 
     # 3. audit
     forb = lib.grep_forbidden()
@@ -93,6 +101,9 @@ def main():
     checker = None
     if a.tier == "thorough" and okp:
         okc, logc = lib.leanchecker("GrVerif.Props." + prop)
+        for extra in getattr(mod, "EXTRA_PROPS", []):
+            if okc:
+                okc, logc = lib.leanchecker(extra)
         checker = okc
         if not okc:
             ctx.proof_ok = False
